@@ -1,4 +1,5 @@
 import SerfModel.Check.Core
+import SerfModel.Check.C02
 /-!
 C01 checker.  The ops of a scenario update the ground truth (which nodes run, which left
 gracefully, crashed, were force-left); at `settle` the implementation prints every running
@@ -21,6 +22,10 @@ structure St where
   /-- nodes that left gracefully or were force-left at some point of the scenario (and may have restarted since) -/
   everLeft : List Nat := []
   dead : Bool := false     -- the harness could not set the scenario up (node/join error): rest is skipped
+  /-- a SINGLE-OBSERVER case (first op `single`): one real node driven through its delegates (harness/node.go); judged
+  by the per-observer transition monitors of the C02 checker (the observer-local half of C01: a graceful leaver that
+  goes down is listed left however memberlist words the death, a crashed one failed, status times, LocalState) -/
+  single : Option SerfModel.Check.C02.St := none
   deriving Inhabited
 
 def nameOf (i : Nat) : String := s!"n{i}"
@@ -88,6 +93,12 @@ def monitorSettle (s : St) (views : List (String × List (String × String))) (m
   | some b => if mlOK then .inl (some b) else .inr ()
 
 def step (s : St) (op : List String) (impl : String) : LineOut St :=
+  if op == ["single"] then { state := { s with single := some {} }, model := some "ok" } else
+  match s.single with
+  | some ns =>
+    let r := SerfModel.Check.C02.step ns op impl
+    { state := { s with single := some r.state }, model := r.model, monitor := r.monitor }
+  | none =>
   if s.dead then { state := s, model := none } else
   -- a set-up failure of the harness (sockets, join under load) makes the rest of the case inconclusive
   if impl == "node-error" || impl == "join-failed" then
